@@ -29,6 +29,13 @@ import (
 // manifest (e.g. "0755"); an empty string skips the chmod and leaves
 // the temp file at the default 0644.
 func SwapArtifact(srcPath, targetPath string, uid, gid int, modeStr string) error {
+	return swapArtifact(srcPath, targetPath, uid, gid, modeStr, 0)
+}
+
+// swapArtifact is SwapArtifact plus extraMode: setuid/setgid/sticky bits
+// OR-ed into the parsed mode. Manifest modes never carry them; the
+// rollback path passes the bits recorded in the snapshot.
+func swapArtifact(srcPath, targetPath string, uid, gid int, modeStr string, extraMode os.FileMode) error {
 	dir := filepath.Dir(targetPath)
 	base := filepath.Base(targetPath)
 	stagingName := filepath.Join(dir, "."+base+".new")
@@ -73,7 +80,7 @@ func SwapArtifact(srcPath, targetPath string, uid, gid int, modeStr string) erro
 			_ = os.Remove(stagingName)
 			return fmt.Errorf("parse mode %q: %w", modeStr, err)
 		}
-		if err := os.Chmod(stagingName, mode); err != nil {
+		if err := os.Chmod(stagingName, mode|extraMode); err != nil {
 			_ = os.Remove(stagingName)
 			return fmt.Errorf("chmod %s -> %o: %w", stagingName, mode, err)
 		}
